@@ -427,6 +427,18 @@ func (pa *path) doOnDemandPublisherReadyTimer() {
 }
 
 func (pa *path) doOnDemandPublisherCloseTimer() {
+	// requests that arrived after the publisher left are on hold without a start timeout;
+	// reply to them before stopping the command, otherwise they are never answered.
+	for _, req := range pa.describeRequestsOnHold {
+		req.Res <- defs.PathDescribeRes{Err: fmt.Errorf("source of path '%s' is not available", pa.name)}
+	}
+	pa.describeRequestsOnHold = nil
+
+	for _, req := range pa.readerAddRequestsOnHold {
+		req.Res <- defs.PathAddReaderRes{Err: fmt.Errorf("source of path '%s' is not available", pa.name)}
+	}
+	pa.readerAddRequestsOnHold = nil
+
 	pa.onDemandPublisherStop("not needed by anyone")
 }
 
